@@ -42,7 +42,7 @@ sys.stderr.write(p.stderr)
 rc = p.returncode
 # 3. corpus
 cj = tempfile.mktemp(prefix='corpus.', suffix='.json')
-c = subprocess.run([sys.executable, os.path.join(VERIF, 'tools', 'corpus.py'), '--property', prop, '-j', os.environ.get('CORPUS_JOBS', '6'), '--json', cj], capture_output=True, text=True)
+c = subprocess.run([sys.executable, os.path.join(VERIF, 'tools', 'corpus.py'), '--kind', 'all', '--property', prop, '-j', os.environ.get('CORPUS_JOBS', '6'), '--json', cj], capture_output=True, text=True)
 sys.stdout.write(c.stdout)
 corpus = {}
 try:
